@@ -140,11 +140,149 @@ class Ctx:
                 if hit is not None:
                     self.ok(rule, key, "%s: refuses (inside %s, called with `?`) when %s" % (f.id, cf.id, hit), loc="%s:%s" % (f.file, call_edge.line))
                     return call_edge
+        # the same refusal spelled differently on the integer's value (`x < 1` for `x == 0`, a `match` with literal / range arms,
+        # nested comparisons): decide by value - every value of the operand that satisfies the relation with the literal must
+        # reach refusing returns only
+        if not every_iteration and not ct:
+            hit = self._refused_by_value(f, lhs, when, rhs, refusal)
+            if hit:
+                self.ok(rule, key, "%s: %s" % (f.id, hit), loc=f.loc)
+                return g.edges[0] if g.edges else True
         msg = "%s: required guard `%s` (refuse when %s) not established" % (f.id, desc or "", when)
         if near:
             msg += "; nearest: " + "; ".join("%s @%s: %s" % (fmt_cond(e.cond)[:160], e.line, why) for e, why in near[:3])
         self.bad(rule, key, msg, loc=f.loc)
         return None
+
+    def _refused_by_value(self, f, lhs, when, rhs, refusal):
+        """GUARD by value simulation for `lhs <when> literal`: walk the CFG for representative values v of the operand; at a
+        branch on the operand against literals only the edges consistent with v are followed, every other branch is followed
+        both ways.  The guard holds iff every representative v with `v <when> literal` reaches refusing returns only (and at
+        least one such v exists).  The callee of a `?`-propagated helper call is simulated the same way (one level)."""
+        g = self.guards(f)
+        INTMAX = {"u8": 255, "u16": 65535, "u32": (1 << 32) - 1, "u64": (1 << 64) - 1, "usize": (1 << 64) - 1, "u128": (1 << 128) - 1}
+        REL = {"Eq": lambda a, b: a == b, "Ne": lambda a, b: a != b, "Lt": lambda a, b: a < b, "Le": lambda a, b: a <= b,
+               "Gt": lambda a, b: a > b, "Ge": lambda a, b: a >= b}
+
+        def litval(e):
+            if isinstance(e, tuple) and e[0] == "lit" and isinstance(e[1], int) and not isinstance(e[1], bool):
+                return e[1], (e[2] if len(e) > 2 else None)
+            if isinstance(e, tuple) and e[0] == "symlit":
+                try:
+                    return int(e[2]), None
+                except (TypeError, ValueError):
+                    return None
+            return None
+        per_block = {}
+        lits, tys = set(), set()
+        for e in g.edges:
+            c = e.cond
+            pred = None
+            if c[0] == "rel":
+                la, lb = litval(c[3]), litval(c[2])
+                if lhs(c[2]) and la is not None:
+                    pred = (lambda op, k: (lambda v: REL[op](v, k)))(c[1], la[0]); lits.add(la[0]); tys.add(la[1])
+                elif lhs(c[3]) and lb is not None:
+                    pred = (lambda op, k: (lambda v: REL[op](k, v)))(c[1], lb[0]); lits.add(lb[0]); tys.add(lb[1])
+            elif c[0] == "inteq" and lhs(c[1]) and isinstance(c[2], int):
+                pred = (lambda k: (lambda v: v == k))(c[2]); lits.add(c[2])
+            elif c[0] == "intother" and lhs(c[1]):
+                pred = (lambda ks: (lambda v: v not in ks))(tuple(c[2])); lits.update(x for x in c[2] if isinstance(x, int))
+            if pred is not None:
+                per_block.setdefault(e.block, []).append((e, pred))
+        if not per_block:
+            return None
+        # the literal of the requirement: probe the pattern
+        want = [k for k in sorted(lits | set(x + d for x in lits for d in (-1, 1)) | {0, 1, 2, 254, 255, 256, 65535, 65536})
+                if k >= 0 and rhs(("lit", k, "usize"))]
+        if len(want) != 1:
+            return None
+        n = want[0]
+        # range of the operand's type
+        hi = None
+        for t in tys:
+            if t in INTMAX:
+                hi = INTMAX[t] if hi is None else min(hi, INTMAX[t])
+        for e in g.edges:
+            for x in (e.cond[1:3] if e.cond[0] in ("inteq", "intother") else e.cond[2:4]):
+                if isinstance(x, tuple) and lhs(x) and x[0] == "param":
+                    ts = self.prog.ty_str(f.body.locals[x[2]]).lstrip("&")
+                    if ts in INTMAX:
+                        hi = INTMAX[ts] if hi is None else min(hi, INTMAX[ts])
+        if hi is None:
+            hi = (1 << 64) - 1
+        reps = sorted(v for v in (set(lits) | set(x + d for x in lits for d in (-1, 1)) | {0, 1, hi, hi - 1, n, n - 1, n + 1}) if 0 <= v <= hi)
+        ret_kind = {}
+        for rd in g.retdefs:
+            ret_kind.setdefault(rd.block, set()).add(rd.kind)
+        b = f.body
+
+        def simulate(v):
+            seen, stack, kinds = set(), [0], set()
+            while stack:
+                bi = stack.pop()
+                if bi in seen:
+                    continue
+                seen.add(bi)
+                kinds |= ret_kind.get(bi, set())
+                if bi in per_block:
+                    nxt = [e.target for (e, pr) in per_block[bi] if pr(v)]
+                else:
+                    nxt = [x for x in b.blocks[bi].term.targets if x is not None and not b.blocks[x].cleanup]
+                stack.extend(nxt)
+            return kinds
+        sat = [v for v in reps if REL[when](v, n)]
+        if not sat:
+            return None
+        for v in sat:
+            k = simulate(v)
+            if not k or not (k <= set(refusal) | {"partial"}) or not (k & set(refusal)):
+                return None
+        return "refuses for every value with `operand %s %d` (decided by value over the branches on the operand: %s)" % (
+            when, n, ", ".join(str(v) for v in sat[:6]))
+
+    def value_walker(self, f, lhs):
+        """(reach(v) -> set of blocks reachable when the integer operand matched by `lhs` has value v, literals it is compared with).
+        At a branch on the operand against literals only the consistent edges are followed; every other branch both ways."""
+        g = self.guards(f)
+        REL = {"Eq": lambda a, b: a == b, "Ne": lambda a, b: a != b, "Lt": lambda a, b: a < b, "Le": lambda a, b: a <= b,
+               "Gt": lambda a, b: a > b, "Ge": lambda a, b: a >= b}
+
+        def litval(e):
+            if isinstance(e, tuple) and e[0] == "lit" and isinstance(e[1], int) and not isinstance(e[1], bool):
+                return e[1]
+            return None
+        per_block, lits = {}, set()
+        for e in g.edges:
+            c = e.cond
+            pred = None
+            if c[0] == "rel":
+                la, lb = litval(c[3]), litval(c[2])
+                if lhs(c[2]) and la is not None:
+                    pred = (lambda op, k: (lambda v: REL[op](v, k)))(c[1], la); lits.add(la)
+                elif lhs(c[3]) and lb is not None:
+                    pred = (lambda op, k: (lambda v: REL[op](k, v)))(c[1], lb); lits.add(lb)
+            elif c[0] == "inteq" and lhs(c[1]) and isinstance(c[2], int):
+                pred = (lambda k: (lambda v: v == k))(c[2]); lits.add(c[2])
+            elif c[0] == "intother" and lhs(c[1]):
+                pred = (lambda ks: (lambda v: v not in ks))(tuple(c[2])); lits.update(x for x in c[2] if isinstance(x, int))
+            if pred is not None:
+                per_block.setdefault(e.block, []).append((e, pred))
+        b = f.body
+
+        def reach(v):
+            seen, stack = set(), [0]
+            while stack:
+                bi = stack.pop()
+                if bi in seen:
+                    continue
+                seen.add(bi)
+                if bi in per_block:
+                    stack.extend(e.target for (e, pr) in per_block[bi] if pr(v))
+                else:
+                    stack.extend(x for x in b.blocks[bi].term.targets if x is not None and not b.blocks[x].cleanup)
+            return seen
+        return reach, lits, bool(per_block)
 
     def _try_callees(self, f, refusal=("err",)):
         """crate-local callees of f whose Result is propagated with `?` (or returned as is): (callee fn, {param: actual term}, edge)"""
@@ -240,7 +378,12 @@ class Ctx:
             if c[0] != "variant" or c[2] not in ("Err", "None") or not c[3]:
                 continue
             subj = c[1]
-            if not (callee(subj) or any(callee(w) for w in synthetic_wrappers(subj))):
+            alts = [subj]
+            if subj[0] == "phi":
+                # `let x = match a { Some(v) => f(v), None => None }; match x { None => return Err(..), .. }`: the merged value's definitions
+                from guards import phi_defs
+                alts += [de for (de, dc, dbi) in phi_defs(g, subj[1]) if de is not None]
+            if not any(callee(x) or any(callee(w) for w in synthetic_wrappers(x)) for x in alts):
                 continue
             kinds = set(rd.kind for rd in e.leads)
             if not (kinds and kinds <= set(refusal)):
@@ -250,8 +393,13 @@ class Ctx:
             self.ok(rule, key, "%s: refuses when %s fails (explicit match)" % (f.id, fmt(subj)[:160]), loc="%s:%s" % (f.file, e.line))
             return subj
         # also accept a tail call `return callee(...)` (the callee's Result is returned as is)
+        def _unwrapped(x):
+            # `callee(..).map_err(f)` returned as is carries callee's refusals
+            while isinstance(x, tuple) and x[0] == "call" and str(x[1]).split("::")[-1] in ("map_err",) and x[2] and not callee(x):
+                x = x[2][0]
+            return x
         for rd in g.retdefs:
-            if rd.kind == "call" and rd.expr is not None and callee(rd.expr):
+            if rd.kind == "call" and rd.expr is not None and callee(_unwrapped(rd.expr)):
                 others = [x for x in g.retdefs if x is not rd and x.kind not in refusal]
                 if not others:
                     self.ok(rule, key, "%s: returns the result of %s" % (f.id, fmt(rd.expr)[:160]),
